@@ -12,6 +12,7 @@ from typing import Any, Callable, Iterable
 from tree_sitter import Node
 
 from nix_manipulator.expressions.layout import comma, empty_line, linebreak
+from nix_manipulator._verif_hooks import emit as _verif_emit
 
 _EMPTY_LINE_RE = re.compile(r"\n[ \t]*\n")
 _GAP_WHITESPACE_BYTES = (32, 9)
@@ -22,9 +23,11 @@ _SOURCE_BYTES: ContextVar[bytes | None] = ContextVar("nix_source_bytes", default
 def source_bytes_context(source_bytes: bytes | None):
     """Share source bytes to avoid repeated decoding across trivia helpers."""
     token = _SOURCE_BYTES.set(source_bytes)
+    _verif_emit("bytes_enter", ident=id(source_bytes))
     try:
         yield
     finally:
+        _verif_emit("bytes_exit", ident=id(source_bytes))
         _SOURCE_BYTES.reset(token)
 
 
@@ -36,6 +39,7 @@ def _gap_span(
         return None
     source_bytes = _SOURCE_BYTES.get()
     if source_bytes is not None:
+        _verif_emit("gap_read", ident=id(source_bytes))
         return source_bytes, start_byte, end_byte
     if parent.text is None:
         return None
